@@ -61,4 +61,11 @@ CHECKS = {
   "note": "Trusted: numpy Cholesky for whitening, my GKF writer; ghost observations are constructed so that the target point is unusable (undeclared, or declared without determinable coordinates).",
   "technique": "metamorphic / differential property-based testing (Hypothesis) on the real binary and the Adj API",
  },
+ "C11": {
+  "text": "Bounded exhaustive enumeration plus coverage-guided fuzzing under ASan/UBSan with the semantic oracle inside the targets (well-formed XML output, located non-empty diagnostics, return from main): all element forests up to 3/4 elements over the tag alphabet, every prefix and every two-chunk split of every archived input, all archived inputs x option combinations through the in-process main(), libFuzzer campaigns on gama-local's main(), on the gama-g3 / adj-input-data parser with the g3 pipeline behind it and on the XML/HTML adjustment-result readers, and grammar-derived valid documents that must be accepted.",
+  "note": "Trusted: sanitizer runtime, expat as well-formedness judge. Leaks and pointer-overflow/nonnull-attribute UB classes are out of scope (DESIGN 5). libFuzzer campaigns are stochastic; saved units are the reproducible objects and are replayed at the start of every run. Numeric-literal enumeration is part of C18.",
+  "technique": "coverage-guided fuzzing (libFuzzer) + bounded exhaustive enumeration with in-target semantic oracle",
+  "level": "fault_enumeration",
+  "engine": "libFuzzer",
+ },
 }
